@@ -197,30 +197,32 @@ def C09_ctor_pti_statement : Prop :=
     ctorParses layout_PDUSessionModificationRequest (Ctor.pduSessionModificationRequest (UInt8.ofNat psi))
       (Intended.pduSessionModificationRequest psi pti) = true
 
-/-- what they send (F19, known finding): everything as intended except that the PTI octet is 0 = "unassigned" -/
-theorem C09_ctor_pti_partial : ∀ psi < 256,
-    ctorParses layout_PDUSessionReleaseRequest (Ctor.pduSessionReleaseRequest (UInt8.ofNat psi))
-      ⟨[[0x2E], [UInt8.ofNat psi], [0], [0xD1]], []⟩ = true ∧
-    ctorParses layout_PDUSessionReleaseComplete (Ctor.pduSessionReleaseComplete (UInt8.ofNat psi))
-      ⟨[[0x2E], [UInt8.ofNat psi], [0], [0xD4]], []⟩ = true ∧
-    ctorParses layout_PDUSessionModificationRequest (Ctor.pduSessionModificationRequest (UInt8.ofNat psi))
-      ⟨[[0x2E], [UInt8.ofNat psi], [0], [0xC9]], []⟩ = true := by
+/-- **C09_ctor_pti** (full statement; holds since the F19 repair): the three constructors send PTI 1, an assigned value,
+    and everything else as intended -/
+theorem C09_ctor_pti : C09_ctor_pti_statement := by
+  have h : ∀ psi < 256,
+      ctorParses layout_PDUSessionReleaseRequest (Ctor.pduSessionReleaseRequest (UInt8.ofNat psi))
+        (Intended.pduSessionReleaseRequest psi 1) = true ∧
+      ctorParses layout_PDUSessionReleaseComplete (Ctor.pduSessionReleaseComplete (UInt8.ofNat psi))
+        (Intended.pduSessionReleaseComplete psi 1) = true ∧
+      ctorParses layout_PDUSessionModificationRequest (Ctor.pduSessionModificationRequest (UInt8.ofNat psi))
+        (Intended.pduSessionModificationRequest psi 1) = true := by decide +kernel
+  intro psi hpsi
+  exact ⟨1, by decide, by decide, h psi hpsi⟩
+
+/-- what was sent before the F19 repair (PTI octet 0 = "unassigned") is NOT what the standard intends, for any assigned PTI:
+    the judge used by the correspondence run tells the two apart -/
+theorem C09_ctor_pti_zero_rejected : ∀ pti < 255, 1 ≤ pti →
+    (match wireOf layout_PDUSessionReleaseRequest with
+     | some w => parse w [0x2E, 5, 0, 0xD1] == some (Intended.pduSessionReleaseRequest 5 pti)
+     | none => true) = false := by
   decide +kernel
 
-theorem C09_ctor_pti_counterexample : ¬ C09_ctor_pti_statement := by
-  intro h
-  obtain ⟨pti, h1, h2, h3, _⟩ := h 5 (by decide)
-  have hall : ∀ pti < 255, 1 ≤ pti →
-      ctorParses layout_PDUSessionReleaseRequest (Ctor.pduSessionReleaseRequest (UInt8.ofNat 5))
-        (Intended.pduSessionReleaseRequest 5 pti) = false := by decide +kernel
-  rw [hall pti (by omega) h1] at h3
-  cases h3
-
 /-- `GetUlNasTransport_PduSessionReleaseRequest`: UL NAS TRANSPORT, payload container type N1 SM information, PDU session
-    ID IE = the argument, payload = the release request (with its PTI 0, F19) -/
-theorem C09_ctor_ulReleaseRequest_partial : ∀ psi < 256, ctorParses layout_ULNASTransport
+    ID IE = the argument, payload = the release request with PTI 1 -/
+theorem C09_ctor_ulReleaseRequest : ∀ psi < 256, ctorParses layout_ULNASTransport
     (Ctor.ulReleaseRequest (UInt8.ofNat psi))
-    (Intended.ulNasTransport [0x2E, UInt8.ofNat psi, 0, 0xD1] psi none [] none) = true := by
+    (Intended.ulNasTransport [0x2E, UInt8.ofNat psi, 1, 0xD1] psi none [] none) = true := by
   decide +kernel
 
 /-- `GetRegistrationComplete`: with or without a SOR transparent container of any content below 64 KiB -/
@@ -563,9 +565,9 @@ theorem ul_inner_eval : ∀ psi < 256,
     Ctor.encodeWith layout_PDUSessionEstablishmentRequest (Ctor.pduSessionEstablishmentRequest (UInt8.ofNat psi)) =
       .ok ([0x2E, UInt8.ofNat psi, 0x01, 0xC1, 0xFF, 0xFF, 0x91, 0x7B, 0x00, 0x0A] ++ Intended.pco) ∧
     Ctor.encodeWith layout_PDUSessionModificationRequest (Ctor.pduSessionModificationRequest (UInt8.ofNat psi)) =
-      .ok [0x2E, UInt8.ofNat psi, 0x00, 0xC9] ∧
+      .ok [0x2E, UInt8.ofNat psi, 0x01, 0xC9] ∧
     Ctor.encodeWith layout_PDUSessionReleaseComplete (Ctor.pduSessionReleaseComplete (UInt8.ofNat psi)) =
-      .ok [0x2E, UInt8.ofNat psi, 0x00, 0xD4] := by
+      .ok [0x2E, UInt8.ofNat psi, 0x01, 0xD4] := by
   decide +kernel
 
 /-- the establishment request inside the container is the standard's encoding of the intended inner message -/
@@ -588,25 +590,25 @@ theorem C09_ctor_ulEstablishment (psi rt : Nat) (dnn : Bytes) (sn : Option (Nat 
   simp only [Ctor.ulEstablishment, h]
   exact C09_ctor_ulNasTransport _ psi rt dnn sn hpsi hrt (by simp [Intended.pco]) hd hs
 
-/-- `GetUlNasTransport_PduSessionModificationRequest`: as intended except for the PTI 0 of the inner message (F19) -/
-theorem C09_ctor_ulModification_partial (psi rt : Nat) (dnn : Bytes) (sn : Option (Nat × UInt8 × UInt8 × UInt8))
+/-- `GetUlNasTransport_PduSessionModificationRequest`: as intended, the inner message with PTI 1 (since the F19 repair) -/
+theorem C09_ctor_ulModification (psi rt : Nat) (dnn : Bytes) (sn : Option (Nat × UInt8 × UInt8 × UInt8))
     (hpsi : psi < 256) (hrt : rt < 8) (hd : dnn.length ≤ 99 ∧ ∀ c ∈ dnn, c ≠ 0x2E) (hs : ∀ x, sn = some x → x.1 < 256) :
     ∃ w bs, wireOf layout_ULNASTransport = some w ∧
       Ctor.encodeWith layout_ULNASTransport (Ctor.ulModification (UInt8.ofNat psi) (UInt8.ofNat rt) dnn
         (sn.map fun x => ⟨UInt8.ofNat x.1, [x.2.1, x.2.2.1, x.2.2.2]⟩)) = .ok bs ∧
-      parse w bs = some (Intended.ulNasTransport [0x2E, UInt8.ofNat psi, 0x00, 0xC9] psi (some rt) dnn
+      parse w bs = some (Intended.ulNasTransport [0x2E, UInt8.ofNat psi, 0x01, 0xC9] psi (some rt) dnn
         (sn.map fun x => (x.1, [x.2.1, x.2.2.1, x.2.2.2]))) := by
   have h := (ul_inner_eval psi hpsi).2.1
   simp only [Ctor.ulModification, h]
   exact C09_ctor_ulNasTransport _ psi rt dnn sn hpsi hrt (by simp) hd hs
 
-/-- `GetUlNasTransport_PduSessionReleaseComplete`: as intended except for the PTI 0 of the inner message (F19) -/
-theorem C09_ctor_ulReleaseComplete_partial (psi rt : Nat) (dnn : Bytes) (sn : Option (Nat × UInt8 × UInt8 × UInt8))
+/-- `GetUlNasTransport_PduSessionReleaseComplete`: as intended, the inner message with PTI 1 (since the F19 repair) -/
+theorem C09_ctor_ulReleaseComplete (psi rt : Nat) (dnn : Bytes) (sn : Option (Nat × UInt8 × UInt8 × UInt8))
     (hpsi : psi < 256) (hrt : rt < 8) (hd : dnn.length ≤ 99 ∧ ∀ c ∈ dnn, c ≠ 0x2E) (hs : ∀ x, sn = some x → x.1 < 256) :
     ∃ w bs, wireOf layout_ULNASTransport = some w ∧
       Ctor.encodeWith layout_ULNASTransport (Ctor.ulReleaseComplete (UInt8.ofNat psi) (UInt8.ofNat rt) dnn
         (sn.map fun x => ⟨UInt8.ofNat x.1, [x.2.1, x.2.2.1, x.2.2.2]⟩)) = .ok bs ∧
-      parse w bs = some (Intended.ulNasTransport [0x2E, UInt8.ofNat psi, 0x00, 0xD4] psi (some rt) dnn
+      parse w bs = some (Intended.ulNasTransport [0x2E, UInt8.ofNat psi, 0x01, 0xD4] psi (some rt) dnn
         (sn.map fun x => (x.1, [x.2.1, x.2.2.1, x.2.2.2]))) := by
   have h := (ul_inner_eval psi hpsi).2.2
   simp only [Ctor.ulReleaseComplete, h]
